@@ -31,10 +31,13 @@ ASSUMPTIONS = [
 
 GEN_FILE = LEAN / "CogentModel" / "Gen" / "C17Sql.lean"
 COLS = ["seqid", "biotype", "name", "strand", "attributes"]
-SEQIDS = ["s1", "s2", "chrx"]
-BIOTYPES = ["gene", "cds", "exon", "mrna"]
-NAMES = ["a", "b", "ab", "g1", "x"]
-TOKENS = ["zq", "kw", "xv", "zqkw", "pp"]
+# identifiers that differ only by letter case, or by '_' vs another character, sit next to each other in every
+# column, so that an `=` turned into LIKE (ASCII case-insensitive, '_' = any character) changes some answer
+SEQIDS = ["s1", "S1", "s_1", "sx1", "chrx"]
+BIOTYPES = ["gene", "GENE", "g_ne", "gxne", "cds", "exon", "mrna"]
+NAMES = ["ab", "AB", "a_b", "axb", "a", "b", "g1"]
+TOKENS = ["zq", "ZQ", "z_q", "zxq", "kw", "zqkw"]
+PATTERNS = {"seqid": ["s%", "%1", "S%", "s_1%"], "biotype": ["g%ne", "%ne", "GEN%", "c%"], "name": ["a%", "%b", "A%", "a_b%", "ax%"]}
 KINDS = ["basic", "gff", "genbank"]
 FIRST_TABLE = {"basic": "user", "gff": "gff", "genbank": "gb"}
 
@@ -84,13 +87,13 @@ def _ispans(spans):
 def raw_rows(db, table):
     """rows of one table exactly as stored: the model's input"""
     cur = db.db.execute(
-        f"SELECT seqid, biotype, name, strand, CAST(attributes AS TEXT) AS attrs, start, stop, spans FROM {table}"
+        f"SELECT seqid, biotype, name, strand, CAST(attributes AS TEXT) AS attrs, start, stop, spans, parent_id FROM {table}"
     )
     out = []
     for r in cur.fetchall():
         out.append(
             dict(seqid=r["seqid"], biotype=r["biotype"], name=r["name"], strand=r["strand"], attrs=r["attrs"],
-                 start=int(r["start"]), stop=int(r["stop"]), spans=_ispans(r["spans"]))
+                 start=int(r["start"]), stop=int(r["stop"]), spans=_ispans(r["spans"]), parent=r["parent_id"])
         )
     return out
 
@@ -100,13 +103,22 @@ def db_json(db):
     return dict(kind=kind, tables={t: raw_rows(db, t) for t in db.table_names})
 
 
-def canon_feature(f):
-    return (f["seqid"], f["biotype"], f["name"], f["strand"], tuple(tuple(int(x) for x in s) for s in f["spans"]))
+def _nn(name):
+    """names made up by the loader for rows without an ID carry no information: compare them as None"""
+    return None if isinstance(name, str) and name.startswith("unknown-") else name
 
 
-def canon_rec(r, attrs=False):
-    t = (r["seqid"], r["biotype"], r["name"], r["strand"], tuple(tuple(int(x) for x in s) for s in r["spans"]),
-         int(r["start"]), int(r["stop"]))
+def canon_feature(f, exact=False):
+    return (f["seqid"], f["biotype"], f["name"] if exact else _nn(f["name"]), f["strand"],
+            tuple(tuple(int(x) for x in s) for s in f["spans"]))
+
+
+def canon_rec(r, attrs=False, parent=False, exact=False):
+    """exact=True keeps loader-made names (model-vs-real comparisons); the spec-level oracle ignores them"""
+    t = (r["seqid"], r["biotype"], r["name"] if exact else _nn(r["name"]), r["strand"],
+         tuple(tuple(int(x) for x in s) for s in r["spans"]), int(r["start"]), int(r["stop"]))
+    if parent:
+        t += (r.get("parent") if "parent" in r else r.get("parent_id"),)
     return t + ((r.get("attrs"),) if attrs else ())
 
 
@@ -115,6 +127,31 @@ def real_query(db, q, records=False):
     if records:
         return srt(canon_rec(r) for r in db.get_records_matching(**kw))
     return srt(canon_feature(f) for f in db.get_features_matching(**kw))
+
+
+def sql_like(pattern, text):
+    """sqlite LIKE with default settings, written from its documentation: % any run, _ any one character,
+    ASCII letters compared case-insensitively"""
+    lo = lambda c: c.lower() if "A" <= c <= "Z" else c
+    memo = {}
+
+    def go(i, j):
+        if (i, j) in memo:
+            return memo[(i, j)]
+        if i == len(pattern):
+            r = j == len(text)
+        elif pattern[i] == "%":
+            r = go(i + 1, j) or (j < len(text) and go(i, j + 1))
+        elif j == len(text):
+            r = False
+        elif pattern[i] == "_":
+            r = go(i + 1, j + 1)
+        else:
+            r = lo(pattern[i]) == lo(text[j]) and go(i + 1, j + 1)
+        memo[(i, j)] = r
+        return r
+
+    return go(0, 0)
 
 
 # --------------------------------------------------------------------------
@@ -140,26 +177,19 @@ def gen_intent(rng, n, how):
     for i in range(n):
         spans = gen_spans(rng)
         r = dict(
-            seqid=rng.choice(SEQIDS[:2] if rng.random() < 0.7 else SEQIDS),
+            seqid=rng.choice(SEQIDS[:3] if rng.random() < 0.7 else SEQIDS),
             biotype=rng.choice(BIOTYPES),
             name=rng.choice(NAMES),
             spans=spans,
             start=min(s for s, _ in spans),
             stop=max(e for _, e in spans),
+            parent=None,
         )
         tok = rng.choice(TOKENS + [None])
         if how == "add":
-            r["strand"] = rng.choice(["+", "-", None])
+            r["strand_arg"] = rng.choice(["+", "-", "+", "-", 1, -1, None])
+            r["strand"] = None if r["strand_arg"] is None else str(r["strand_arg"])
             r["attrs"] = None if tok is None else f"note={tok};k{i}"
-        elif how == "gff":
-            r["strand"] = rng.choice(["+", "-", "."])
-            if rng.random() < 0.85 or len(spans) > 1:
-                r["name"] = f"{r['name']}{i}"  # the ID; unique per feature
-                r["attrs"] = f"ID={r['name']};note={tok or 'none'}"
-                r["has_id"] = True
-            else:
-                r["attrs"] = f"note={tok or 'none'}"
-                r["has_id"] = False
         else:  # genbank
             if len(spans) > 1 and rng.random() < 0.2:
                 r["strand"] = None  # mixed-strand join
@@ -171,54 +201,103 @@ def gen_intent(rng, n, how):
     return recs
 
 
-def gff_text(rng, recs):
-    """returns (text, rows) — rows in file order (a multi-span feature is several rows, interleaved)"""
-    rows = []
-    for r in recs:
-        for s, e in r["spans"]:
-            rows.append(dict(id=r["name"] if r["has_id"] else None, seqid=r["seqid"], biotype=r["biotype"],
-                             strand=r["strand"], attrs=r["attrs"], start=s + 1, stop=e, _rec=id(r)))
-    rng.shuffle(rows)
-    lines = ["##gff-version 3"]
-    for w in rows:
-        lines.append("\t".join([w["seqid"], "src", w["biotype"], str(w["start"]), str(w["stop"]), ".", w["strand"], ".", w["attrs"]]))
-    return "\n".join(lines) + "\n", rows
-
-
-def gff_expected(recs, rows):
-    """the record list a GFF file denotes: one record per ID in order of first appearance; rows without an ID
-    become `unknown-<n>` in file order"""
-    out, seen, n = [], {}, 0
-    for w in rows:
-        if w["id"] is None:
-            name = f"unknown-{n}"
-            n += 1
+# ---- GFF3 text ------------------------------------------------------------
+def gff_text(rng, n_feat):
+    """GFF3 text with (a) features carrying an ID (1-3 rows each, rows of one feature scattered over the file) and
+    (b) many rows WITHOUT an ID: only `Parent=`, only a note, or no attributes at all"""
+    rows, ids = [], []
+    for i in range(n_feat):
+        fid = f"{rng.choice(NAMES)}{i}"
+        ids.append(fid)
+        seqid, biotype, strand = rng.choice(SEQIDS[:3]), rng.choice(BIOTYPES), rng.choice(["+", "-", "."])
+        attrs = f"ID={fid};note={rng.choice(TOKENS)}"
+        if i and rng.random() < 0.4:
+            attrs += f";Parent={rng.choice(ids[:i])}"
+        for s, e in gen_spans(rng):
+            rows.append([seqid, "src", biotype, str(s + 1), str(e), ".", strand, ".", attrs])
+    for _ in range(rng.choice([0, 2, 4, 7, 11])):
+        seqid, biotype, strand = rng.choice(SEQIDS[:3]), rng.choice(["exon", "cds", "g_ne"]), rng.choice(["+", "-", "."])
+        a = rng.randint(0, 40)
+        b = a + rng.randint(1, 6)
+        r = rng.random()
+        if r < 0.55 and ids:
+            attrs = f"Parent={rng.choice(ids)}"
+        elif r < 0.75:
+            attrs = f"note={rng.choice(TOKENS)}"
         else:
-            name = w["id"]
-        if name not in seen:
-            seen[name] = dict(seqid=w["seqid"], biotype=w["biotype"], name=name, strand=w["strand"], attrs=w["attrs"], spans=[])
-            out.append(seen[name])
-        seen[name]["spans"].append([w["start"] - 1, w["stop"]])
+            attrs = None  # eight-column row
+        rows.append([seqid, "src", biotype, str(a + 1), str(b), ".", strand, "."] + ([] if attrs is None else [attrs]))
+    rng.shuffle(rows)
+    lines = ["##gff-version 3"] + ["\t".join(w) for w in rows]
+    return "\n".join(lines) + "\n"
+
+
+def _attr(attrs, key):
+    for part in attrs.split(";"):
+        if part.startswith(key + "="):
+            return part[len(key) + 1 :].split()[0] if part[len(key) + 1 :].split() else None
+    return None
+
+
+def parse_gff_text(text):
+    """independent reading of GFF3 text: the record list it denotes.  Rows sharing an ID are one multi-span
+    record (first row's columns win); every row without an ID is a record of its own whose name is unspecified"""
+    by_id, out, rows = {}, [], []
+    for ln, line in enumerate(text.split("\n")):
+        if not line.strip() or line.startswith("#"):
+            continue
+        c = line.split("\t")
+        attrs = c[8] if len(c) > 8 else ""
+        fid = _attr(attrs, "ID")
+        rows.append(dict(id=fid, seqid=c[0], biotype=c[2], strand=c[6], attrs=attrs, start=int(c[3]), stop=int(c[4]), line=ln))
+        span = [int(c[3]) - 1, int(c[4])]
+        if fid is not None and fid in by_id:
+            by_id[fid]["spans"].append(span)
+            continue
+        rec = dict(seqid=c[0], biotype=c[2], name=fid, strand=c[6], attrs=attrs, spans=[span], parent=_attr(attrs, "Parent"))
+        out.append(rec)
+        if fid is not None:
+            by_id[fid] = rec
     for r in out:
         r["spans"] = sorted(r["spans"])
         r["start"] = min(s for s, _ in r["spans"])
         r["stop"] = max(e for _, e in r["spans"])
-    return out
+    return out, rows
 
 
-def gb_location(r):
-    segs = [f"{s + 1}..{e}" if e - s > 1 else f"{s + 1}" for s, e in r["spans"]]
+# ---- GenBank text ---------------------------------------------------------
+def gb_location(rng, r, length):
+    """a location expression for the record's spans: plain / join / order / complement(...) / mixed strands /
+    partial ends `<a..>b`; returns the text"""
+    def seg(s, e, first, last):
+        a, b = str(s + 1), str(e)
+        if first and r.get("partial5"):
+            a = "<" + a
+        if last and r.get("partial3"):
+            b = ">" + b
+        return f"{a}..{b}" if e - s > 1 or "<" in a or ">" in b else a
+
+    n = len(r["spans"])
+    order = r.get("span_order") or list(range(n))
+    segs = [seg(*r["spans"][k], k == 0, k == n - 1) for k in order]
     if r["strand"] is None:
         segs = [f"complement({x})" if i % 2 else x for i, x in enumerate(segs)]
         return "join(" + ",".join(segs) + ")"
-    body = segs[0] if len(segs) == 1 else "join(" + ",".join(segs) + ")"
+    op = r.get("op", "join")
+    body = segs[0] if n == 1 else f"{op}(" + ",".join(segs) + ")"
     return f"complement({body})" if r["strand"] == "-" else body
 
 
-def gb_text(seqid, recs, length=80):
-    lines = [f"LOCUS       {seqid:<24}{length} bp    DNA     linear   PLN 08-MAR-2010", "FEATURES             Location/Qualifiers"]
+def gb_record(rng, seqid, recs, length=80):
+    lines = [f"LOCUS       {seqid:<24}{length} bp    DNA     {rng.choice(['linear  ', 'circular'])} PLN 08-MAR-2010",
+             "FEATURES             Location/Qualifiers"]
     for r in recs:
-        lines.append(f"     {r['biotype']:<16}{gb_location(r)}")
+        r["op"] = rng.choice(["join", "join", "order"])
+        r["partial5"], r["partial3"] = rng.random() < 0.2, rng.random() < 0.2
+        if len(r["spans"]) > 1 and rng.random() < 0.25:
+            # a feature spanning the origin is written high segment first: join(90..100,1..10)
+            r["span_order"] = list(range(len(r["spans"])))[::-1]
+        lines.append(f"     {r['biotype']:<16}{gb_location(rng, r, length)}")
         lines.append(f'                     /gene="{r["name"]}"')
         if r.get("note"):
             lines.append(f'                     /note="{r["note"]}"')
@@ -233,28 +312,31 @@ def gb_text(seqid, recs, length=80):
 
 def build_case(rng, kind, how, n):
     """a JSON-able description of how to build a db plus the records it should hold"""
-    recs = gen_intent(rng, n, how)
+    if how == "gff":
+        text = gff_text(rng, n)
+        intent, rows = parse_gff_text(text)
+        lpb = rng.choice([None, 1, 2, 3, 5, 8])
+        return dict(kind="gff", how="gff", text=text, lines_per_block=lpb, intent=[_clean(r) for r in intent], rows=rows)
+    recs = gen_intent(rng, n, "add" if how == "add" else "gb")
     if how == "add":
         calls = []
         for r in recs:
             spans = [list(s) for s in r["spans"]]
             if rng.random() < 0.3:
                 rng.shuffle(spans)
-            spans = [s[::-1] if rng.random() < 0.15 else s for s in spans]
-            calls.append(dict(seqid=r["seqid"], biotype=r["biotype"], name=r["name"], spans=spans, strand=r["strand"], attributes=r["attrs"]))
+            spans = [s[::-1] if rng.random() < 0.2 else s for s in spans]  # reversed span order is normalised
+            calls.append(dict(seqid=r["seqid"], biotype=r["biotype"], name=r["name"], spans=spans, strand=r["strand_arg"], attributes=r["attrs"]))
         return dict(kind=kind, how="add", calls=calls, intent=[_clean(r) for r in recs])
-    if how == "gff":
-        text, rows = gff_text(rng, recs)
-        lpb = rng.choice([None, None, 1, 2, 3, 5, 8])
-        return dict(kind="gff", how="gff", text=text, lines_per_block=lpb, intent=[_clean(r) for r in gff_expected(recs, rows)],
-                    rows=[{k: v for k, v in w.items() if k != "_rec"} for w in rows])
     texts, intent = [], []
     for sid in SEQIDS:
         sub = [r for r in recs if r["seqid"] == sid]
         if sub:
-            texts.append([sid, gb_text(sid, sub)])
+            texts.append([sid, gb_record(rng, sid, sub)])
             intent += [_clean(r) for r in sub]
-    return dict(kind="genbank", how="gb", texts=texts, intent=intent)
+    if how == "gbmulti":
+        # ONE file holding several LOCUS records
+        texts = [["multi", "".join(t for _, t in texts)]] if texts else []
+    return dict(kind="genbank", how=how, texts=texts, intent=intent)
 
 
 def _one_block(case):
@@ -265,7 +347,7 @@ def _one_block(case):
 
 
 def _clean(r):
-    return {k: r.get(k) for k in ("seqid", "biotype", "name", "strand", "attrs", "spans", "start", "stop")}
+    return {k: r.get(k) for k in ("seqid", "biotype", "name", "strand", "attrs", "spans", "start", "stop", "parent")}
 
 
 def build_db(case, scratch: Path, tag="x"):
@@ -290,15 +372,31 @@ def build_db(case, scratch: Path, tag="x"):
     return db if db is not None else _cls("genbank")()
 
 
+def n_blocks(case):
+    k = case.get("lines_per_block")
+    n = len(case["text"].rstrip("\n").split("\n"))
+    return 1 if not k else -(-n // k)
+
+
 # --------------------------------------------------------------------------
 # the oracle: a linear scan written from the property text
 # --------------------------------------------------------------------------
+def col_match(q, v):
+    """`=` for plain values (exact, case-sensitive), the documented `%` wildcard otherwise; NULL matches nothing"""
+    if v is None:
+        return False
+    q = str(q)
+    return sql_like(q, v) if "%" in q else q == v
+
+
 def oracle_match(r, q):
     for c in ("seqid", "biotype", "name", "strand"):
-        if q.get(c) is not None and r[c] != q[c]:
+        if q.get(c) is not None and not col_match(q[c], r[c]):
             return False
     if q.get("attributes") is not None:
-        if r.get("attrs") is None or q["attributes"] not in r["attrs"]:
+        # documented: records whose attributes CONTAIN the text (sqlite LIKE %text%)
+        a = q["attributes"]
+        if r.get("attrs") is None or not sql_like(a if "%%" in a else f"%{a}%", r["attrs"]):
             return False
     a, b = q.get("start"), q.get("stop")
     s, e = r["start"], r["stop"]
@@ -322,7 +420,8 @@ def lattice(recs):
 
 def gen_queries(rng, recs, n_windows):
     """window-only queries over the boundary lattice x allow_partial, then every subset of the optional
-    arguments x the five window modes"""
+    arguments x the five window modes; column values are taken from a record, from its case / underscore
+    neighbours, or are `%` patterns; strand may be given as an int"""
     lat = lattice(recs) or [0, 1, 2]
     pairs = [(a, b) for a in lat for b in lat if a < b]
     if len(pairs) > n_windows:
@@ -331,17 +430,22 @@ def gen_queries(rng, recs, n_windows):
     for a, b in pairs:
         for ap in (True, False):
             qs.append(dict(start=a, stop=b, allow_partial=ap))
+    vocab = {"seqid": SEQIDS, "biotype": BIOTYPES, "name": NAMES, "strand": ["+", "-", 1, -1, "."]}
     for k in range(len(COLS) + 1):
         for cols in itertools.combinations(COLS, k):
             base = {}
             src = rng.choice(recs) if recs and rng.random() < 0.75 else None
             for c in cols:
+                r = rng.random()
                 if c == "attributes":
                     base[c] = rng.choice(TOKENS)
-                elif src is not None and src.get(c) is not None and rng.random() < 0.85:
-                    base[c] = src[c]
+                elif c in PATTERNS and r < 0.15:
+                    base[c] = rng.choice(PATTERNS[c])
+                elif src is not None and src.get(c) is not None and r < 0.7:
+                    v = src[c]
+                    base[c] = int(v) if c == "strand" and v in ("1", "-1") and rng.random() < 0.5 else v
                 else:
-                    base[c] = rng.choice({"seqid": SEQIDS, "biotype": BIOTYPES, "name": NAMES + ["a0", "b1"], "strand": ["+", "-"]}[c])
+                    base[c] = rng.choice(vocab[c])
             a, b = rng.choice(pairs) if pairs else (0, 1)
             if src is not None and rng.random() < 0.6:
                 a = max(0, src["start"] + rng.choice([-1, 0, 1]))
@@ -375,6 +479,34 @@ def q_cols(q):
 # --------------------------------------------------------------------------
 # one case against the oracle (used by spec_check, replay and check_witness)
 # --------------------------------------------------------------------------
+def _count_distinct_check(db, intent, rng, src, case, fails):
+    import collections
+
+    probes = [dict(seqid=True), dict(biotype=True), dict(seqid=True, biotype=True), dict(name=True, seqid=True)]
+    if intent:
+        r = rng.choice(intent) if rng is not None else intent[0]
+        probes += [dict(biotype=r["biotype"], seqid=True), dict(seqid=r["seqid"], name=True, biotype=True)]
+    for flags in probes:
+        try:
+            tbl = db.count_distinct(**flags)
+            header = list(tbl.header)
+            got = collections.Counter()
+            for row in tbl.to_list():
+                key = tuple(_nn(v) if h == "name" else v for h, v in zip(header[:-1], row[:-1]))
+                got[key] += int(row[-1])
+            cols = header[:-1]
+        except Exception as e:  # noqa: BLE001
+            fails.append(("count_distinct raised", dict(case=case, flags=flags), "a table", repr(e), f"count_distinct:{src}:raises:{type(e).__name__}"))
+            continue
+        cons = {k: v for k, v in flags.items() if isinstance(v, str)}
+        want = collections.Counter(
+            tuple(rec[c] for c in cols) for rec in intent if all(col_match(v, rec[k]) for k, v in cons.items())
+        )
+        if dict(got) != dict(want):
+            fails.append(("count_distinct differs from counting the record list", dict(case=case, flags=flags), sorted(want.items(), key=repr),
+                          sorted(got.items(), key=repr), f"count_distinct:{src}:{'+'.join(sorted(flags))}"))
+
+
 def run_case(case, scratch, out=None, rng=None, n_windows=60, queries=None, tag="case"):
     """returns list of failure tuples (what, input, expected, got, sig)"""
     fails = []
@@ -384,19 +516,27 @@ def run_case(case, scratch, out=None, rng=None, n_windows=60, queries=None, tag=
     except Exception as e:  # noqa: BLE001
         return [("building the db raised", dict(case=case), "a db", repr(e), f"build-raised:{src}:{type(e).__name__}")]
     intent = case["intent"]
-    # (1) the stored record list is what was put in
-    got = srt(canon_rec(r) for r in db.get_records_matching())
-    want = srt(canon_rec(r) for r in intent)
+    # (1) the stored record list is what was put in (loader-made names of ID-less rows are not compared)
+    stored = [r for t in db.table_names for r in raw_rows(db, t)]
+    with_parent = case["how"] == "gff"
+    got = srt(canon_rec(r, parent=with_parent) for r in stored)
+    want = srt(canon_rec(r, parent=with_parent) for r in intent)
     if got != want:
-        blk = "blocks" if case.get("lines_per_block") else "oneblock"
-        split = _ids_split_over_blocks(case) if case["how"] == "gff" else False
-        fails.append((
-            "stored records differ from the records put in", dict(case=case), want, got,
-            f"load:{src}:{blk}:{'id-split-over-blocks' if split else 'plain'}",
-        ))
+        if case["how"] == "gff":
+            nb = n_blocks(case)
+            cls = f"blocks={'1' if nb == 1 else '2' if nb == 2 else '3+'}:{'id-split' if _ids_split_over_blocks(case) else 'plain'}"
+        else:
+            cls = "multi-record-file" if case["how"] == "gbmulti" and len(case["intent"]) and got != want and \
+                {r[0] for r in got} < {r[0] for r in want} else "plain"
+        fails.append(("stored records differ from the records the input denotes", dict(case=case), want, got, f"load:{src}:{cls}"))
         return fails
+    names = [r["name"] for r in stored]
+    if len(set(names)) != len(names) and case["how"] == "gff":
+        fails.append(("two stored GFF records share a name", dict(case=case), "distinct names", sorted(names), f"load:{src}:duplicate-name"))
     if len(db) != len(intent):
         fails.append(("len(db) differs from the number of records", dict(case=case), len(intent), len(db), f"len:{src}"))
+    if out is not None or queries is None:
+        _count_distinct_check(db, intent, rng, src, case, fails)
     if queries is None:
         queries = gen_queries(rng, intent, n_windows)
     for q in queries:
@@ -410,6 +550,8 @@ def run_case(case, scratch, out=None, rng=None, n_windows=60, queries=None, tag=
             bump(out, "window_mode", q_mode(q))
             bump(out, "n_cols", sum(q.get(c) is not None for c in COLS))
             bump(out, "result_size", min(len(want), 5))
+            if any(isinstance(q.get(c), str) and "%" in q[c] for c in COLS[:3]):
+                bump(out, "wildcard_queries")
             if want and len(want) < len(intent):
                 out["nontrivial"].add((src, json.dumps(case["intent"])[:200], json.dumps(q, sort_keys=True)))
         if got != want:
@@ -418,24 +560,24 @@ def run_case(case, scratch, out=None, rng=None, n_windows=60, queries=None, tag=
                 f"query:{src}:{q_mode(q)}:{q_cols(q)}",
             ))
             continue
-        # full records (start/stop columns) and counts
-        if q_mode(q) != "none" or out is None or out["evaluations"] % 7 == 0:
-            wantr = srt(canon_rec(r) for r in oracle_select(intent, q))
-            try:
-                gotr = real_query(db, q, records=True)
-            except Exception as e:  # noqa: BLE001
-                gotr = f"raised {type(e).__name__}: {e}"
-            if gotr != wantr:
-                fails.append(("get_records_matching differs from the linear scan", dict(case=case, query=q), wantr, gotr,
-                              f"records:{src}:{q_mode(q)}:{q_cols(q)}"))
+        # the three query interfaces must agree with the scan (and so with each other)
+        wantr = srt(canon_rec(r) for r in oracle_select(intent, q))
+        try:
+            gotr = real_query(db, q, records=True)
+        except Exception as e:  # noqa: BLE001
+            gotr = f"raised {type(e).__name__}: {e}"
+        if gotr != wantr:
+            fails.append(("get_records_matching differs from the linear scan", dict(case=case, query=q), wantr, gotr,
+                          f"records:{src}:{q_mode(q)}:{q_cols(q)}"))
         if q_mode(q) == "none":
             kw = {k: v for k, v in q.items() if v is not None and k != "allow_partial"}
+            if "attributes" in kw:
+                continue  # num_matches takes the attributes text as an exact / % pattern, not as a substring
             try:
                 n = db.num_matches(**kw)
             except Exception as e:  # noqa: BLE001
                 n = f"raised {type(e).__name__}"
-            # num_matches does not wrap attributes in %..% (it never goes through _get_records_matching)
-            if "attributes" not in kw and n != len(want):
+            if n != len(want):
                 fails.append(("num_matches differs from the linear scan", dict(case=case, query=q), len(want), n, f"num_matches:{src}:{q_cols(q)}"))
     return fails
 
@@ -444,12 +586,11 @@ def _ids_split_over_blocks(case):
     k = case.get("lines_per_block")
     if not k:
         return False
-    lines = [None] + case["rows"]  # header line counts
     seen = {}
-    for i, w in enumerate(lines):
-        if w is None or w["id"] is None:
+    for w in case["rows"]:
+        if w["id"] is None:
             continue
-        b = i // k
+        b = w["line"] // k
         if w["id"] in seen and seen[w["id"]] != b:
             return True
         seen.setdefault(w["id"], b)
@@ -768,7 +909,7 @@ def correspondence(ctx):
         real_f, real_r = [], []
         for q in qs:
             kw = {k: v for k, v in q.items() if v is not None}
-            real_f.append([canon_feature(f) for f in db.get_features_matching(**kw)])
+            real_f.append([canon_feature(f, exact=True) for f in db.get_features_matching(**kw)])
             real_r.append(len(list(db.get_records_matching(**kw))))
         batch.append(("queries", dict(db=dj, qs=[_model_q(q) for q in qs])))
         meta.append((kind, how, dj, qs, real_f, real_r))
@@ -789,7 +930,7 @@ def correspondence(ctx):
         nrec = sum(len(t) for t in dj["tables"].values())
         for q, mod, rf, rr in zip(qs, rep, real_f, real_r):
             out["evaluations"] += 1
-            modc = [canon_feature(r) for r in mod]
+            modc = [canon_feature(r, exact=True) for r in mod]
             bump(out, "corr_window_mode", q_mode(q))
             if srt(modc) != srt(rf) or len(mod) != rr:
                 add_failure(out, "corr", "getMatching model differs from get_features_matching", dict(db=dj, q=q), srt(modc), srt(rf), confirmed=False)
@@ -846,54 +987,30 @@ def correspondence(ctx):
         elif l[0] != "seg":
             out["nontrivial"].add(("gb", _loc_text(l)))
 
-    # ---- block-wise GFF loading
+    # ---- block-wise GFF loading (ID'd multi-row features and many ID-less rows, 1 / 2 / 3+ blocks)
     reqs, reals, cases = [], [], []
-    for i in range(ctx.budget(40, 400)):
+    for i in range(ctx.budget(60, 500)):
         case = build_case(rng, "gff", "gff", rng.choice([1, 2, 3, 4, 6]))
         case["lines_per_block"] = rng.choice([1, 2, 3, 4, 7, None])
         k = case["lines_per_block"]
-        lines = [None] + case["rows"]
-        blocks = [lines] if not k else [lines[j : j + k] for j in range(0, len(lines), k)]
-        blocks = [[{x: w[x] for x in ("id", "seqid", "biotype", "strand", "attrs", "start", "stop")} for w in b if w is not None] for b in blocks]
+        groups = {}
+        for w in case["rows"]:
+            groups.setdefault(0 if not k else w["line"] // k, []).append(
+                {x: w[x] for x in ("id", "seqid", "biotype", "strand", "attrs", "start", "stop")})
+        blocks = [groups[b] for b in sorted(groups)]
         db = build_db(case, scratch, f"g{i}")
         reqs.append(("gffload", dict(blocks=blocks)))
-        reals.append(srt(canon_rec(r, attrs=True) for r in raw_rows(db, "gff")))
+        reals.append(srt(canon_rec(r, attrs=True, exact=True) for r in raw_rows(db, "gff")))
         cases.append(case)
     for case, real, rep in zip(cases, reals, ctx.driver.batch(reqs)):
         out["evaluations"] += 1
-        mod = srt(canon_rec(r, attrs=True) for r in rep)
-        bump(out, "gffload_blocks", "split-id" if _ids_split_over_blocks(case) else "plain")
-        if mod != real and _ids_split_over_blocks(case) and real == srt(canon_rec(r, attrs=True) for r in case["intent"]):
-            # the model mirrors the duplicate-row behaviour of the unrepaired code on this branch; a tree that
-            # loads the intended records here is right (spec_check decides), not a broken tie
-            bump(out, "gffload_blocks", "split-id:real-matches-spec-not-model")
-        elif mod != real:
+        mod = srt(canon_rec(r, attrs=True, exact=True) for r in rep)
+        nb = n_blocks(case)
+        bump(out, "gffload_blocks", f"{'1' if nb == 1 else '2' if nb == 2 else '3+'}:{'split-id' if _ids_split_over_blocks(case) else 'plain'}")
+        if mod != real:
             add_failure(out, "corr", "loadGffBlocks model differs from load_annotations", dict(text=case["text"], lines_per_block=case["lines_per_block"]), mod, real, confirmed=False)
         else:
             out["nontrivial"].add(("gffload", case["text"], case["lines_per_block"]))
-
-    # ---- subset with a window and no column condition: the model says OperationalError (mirrors the code)
-    reqs, reals = [], []
-    for kind in KINDS:
-        case = build_case(rng, kind, "add", 3)
-        db = build_db(case, scratch, "so")
-        dj = db_json(db)
-        for q in [dict(start=0, stop=50), dict(start=3), dict(stop=9, allow_partial=True), dict(start=2, stop=4, allow_partial=True)]:
-            mops = [["new", kind]] + [["addtable", 0, "user", r] for r in dj["tables"]["user"]] + [["subset", 0, q]]
-            reqs.append(("ops", dict(ops=mops)))
-            try:
-                got = srt(canon_rec(r) for r in db.subset(**q).get_records_matching())
-            except sqlite3.OperationalError:
-                got = "OperationalError"
-            reals.append((got, srt(canon_rec(r) for r in oracle_select(dj["tables"]["user"], q))))
-    for (got, spec), rep in zip(reals, ctx.driver.batch(reqs)):
-        out["evaluations"] += 1
-        if rep.get("err") == "OperationalError" and got == "OperationalError":
-            bump(out, "subset_window_only", "raises-as-modelled")
-        elif rep.get("err") == "OperationalError" and got == spec:
-            bump(out, "subset_window_only", "real-matches-spec-not-model")
-        else:
-            add_failure(out, "corr", "subset(window only): model and real disagree", dict(), rep, got, confirmed=False)
 
     # ---- op histories
     _op_histories(ctx, out, rng, scratch)
@@ -901,7 +1018,8 @@ def correspondence(ctx):
 
 
 def _model_q(q, wrap_attr=True):
-    m = dict(q)
+    # sqlite compares a TEXT column with an int by converting the int to text: the model gets the text
+    m = {k: (str(v) if k in COLS and v is not None and not isinstance(v, str) else v) for k, v in q.items()}
     if not wrap_attr and m.get("attributes") is not None:
         # num_matches hands the attributes value to SQL unwrapped; the model's prepAttr would wrap it, so the
         # harness only sends attribute-free queries to numMatches
@@ -950,8 +1068,8 @@ def _op_histories(ctx, out, rng, scratch):
                     dbs.append(dbs[i].union(dbs[k]))
                 elif r < 0.8:
                     recs = [x for t in db_json(dbs[i])["tables"].values() for x in t]
-                    q = rng.choice([x for x in gen_queries(rng, recs, 2) if q_cols(x) != "-" or q_mode(x) == "none"])
-                    mops.append(["subset", i, q])
+                    q = rng.choice(gen_queries(rng, recs, 2))
+                    mops.append(["subset", i, _model_q(q)])
                     log.append(f"subset {q_mode(q)} {q_cols(q)}")
                     dbs.append(dbs[i].subset(**{a: b for a, b in q.items() if b is not None}))
                 else:
@@ -960,8 +1078,7 @@ def _op_histories(ctx, out, rng, scratch):
                         how = "deepcopy"  # json round trip of a file-backed db re-opens the file: spec_check's job
                     mops.append(["copy", i])
                     log.append(f"copy {how}")
-                    # the model has no notion of open transactions: commit first (the write-after-update hang is spec_check's job)
-                    dbs.append(copy_db(dbs[i], how, scratch, f"h{h}", commit_first=True))
+                    dbs.append(copy_db(dbs[i], how, scratch, f"h{h}"))
             except TypeError:
                 err = "TypeError"
                 break
@@ -979,7 +1096,7 @@ def _op_histories(ctx, out, rng, scratch):
         if "error" in rep:
             add_failure(out, "corr", "driver error in op history", dict(log=log), "reply", rep, confirmed=False)
             continue
-        canon = lambda dj: [dj["kind"], {t: srt(canon_rec(r, attrs=True) for r in rows) for t, rows in dj["tables"].items()}]
+        canon = lambda dj: [dj["kind"], {t: srt(canon_rec(r, attrs=True, exact=True) for r in rows) for t, rows in dj["tables"].items()}]
         a = [rep["err"], [canon(d) for d in rep["dbs"]]]
         b = [real["err"], [canon(d) for d in real["dbs"]]]
         if rep["err"] is not None:
